@@ -17,7 +17,10 @@ import progen
 
 # features of gen/progen.py admitted to the Java family; each was admitted after its libaldor rendering agreed with
 # AldorSem on the interpreter route on the unchanged tree (see SELFTEST_NOTES of checks/c12.py)
-FEATURES = ["bi", "str", "fun", "while", "for", "exit", "list", "rec", "clos", "brk", "rec_fun", "halt"]
+FEATURES = ["bi", "str", "fun", "while", "for", "exit", "list", "rec", "clos", "brk", "rec_fun", "halt", "throw"]
+# "throw": exceptions are raised but never handled.  genjava.c does not implement FOAM Catch ("Java not implemented: Tag:
+# Catch"; aldor/test/jcatch.as is not among the Java tests that are built), so `try` is outside the subset the Java back end
+# supports; the generator's feature "try" is used with every try node replaced by its body (type preserving).
 
 MAX32 = 2**31 - 1
 
@@ -73,9 +76,25 @@ def max_si_literal(prog):
     return best[0]
 
 
+def strip_try(x):
+    """Replace every try node by its body (the handlers and the finaliser are dropped)."""
+    if isinstance(x, dict):
+        while x.get("e") == "try":
+            body = x["body"]
+            x.clear()
+            x.update(body)
+        for v in x.values():
+            strip_try(v)
+    elif isinstance(x, list):
+        for v in x:
+            strip_try(v)
+
+
 def to_java_slice(prog, dialect="libaldor"):
     p = copy.deepcopy(prog)
     narrow(p)
+    strip_try(p["funs"])
+    strip_try(p["top"])
     ro = dict(p.get("render_opts", {}))
     ro["dialect"] = dialect
     p["render_opts"] = ro
@@ -88,13 +107,16 @@ def generate(seed, n, features=None, prefix="j", force=()):
     for i in range(n):
         s = seed * 100003 + i
         g = progen.ProgGen(s, features=features)
+        feat = set("throw" if f == "try" else f for f in g.feat)
         if features is None:
             # ProgGen drew its features from ALL_FEATURES with the seed: keep the admitted ones
-            g.feat = set(f for f in g.feat if f in FEATURES)
-        g.feat |= set(force)
-        bad = g.feat - set(FEATURES)
+            feat = set(f for f in feat if f in FEATURES)
+        feat |= set(force)
+        bad = feat - set(FEATURES)
         if bad:
             raise ValueError("features outside the Java slice: %s" % sorted(bad))
+        g.feat = set("try" if f == "throw" else f for f in feat)
+        g.exns = ["Ex0", "Ex1", "Ex2"] if "try" in g.feat else []
         out.append(to_java_slice(g.program("%s%d_%d" % (prefix, seed, i))))
     return out
 
